@@ -212,6 +212,14 @@ def cmd_run(args):
                     ok = False
                     break
                 if sig not in sigs:
+                    if sig.startswith("hang/") and not sigs and rc == 0:
+                        # the worker did not finish this case within the limit, but the same case, run alone in a fresh
+                        # process with three times the limit, completes without any failure: the worker was stalled (machine
+                        # load), the case itself has now been executed by the replay. Not a verdict and not a harness error.
+                        print("TRANSIENT-STALL: property=%s case=%s (%s) exceeded the per-case time limit in the pool, completed cleanly when replayed alone" % (pid, case, fl))
+                        agg["stat"]["transient_stalls"] = agg["stat"].get("transient_stalls", 0) + 1
+                        ok = False
+                        break
                     harness_errors.append("NONDETERMINISTIC: replay of %s (%s) did not reproduce sig %s (got %s)" % (case, fl, sig, sigs))
                     ok = False
                     break
